@@ -4,12 +4,28 @@ from pyvc.dsl import *
 MG = "json_to_models/generator.py::MetadataGenerator"
 
 
-@contract(MG + ".__init__", props=["C13"], verify=False)
+@contract(MG + ".__init__", props=["C13", "C14", "C07"])
 class GeneratorInit:
+    """C13/C14: a generator works with exactly the options it was given: the registry passed (or the module default), one compiled
+    pattern per given regex, and a set holding exactly the given field names - its own set, not one shared with other generators."""
+    sorts = {"dict_keys_regex": "any", "dict_keys_fields": "any", "str_types_registry": "any"}
     modifies = ["str_types_registry", "dict_keys_regex", "dict_keys_fields"]
+    modifies_self = ["str_types_registry", "dict_keys_regex", "dict_keys_fields"]
+
+    def requires(self, str_types_registry, dict_keys_regex, dict_keys_fields):
+        return {"options_are_lists_or_none": (is_none(dict_keys_regex) or ty_is(dict_keys_regex, list)) and (is_none(dict_keys_fields) or ty_is(dict_keys_fields, list))}
 
     def raises(self, str_types_registry, dict_keys_regex, dict_keys_fields):
         return {"*": True}
+
+    def ensures(self, str_types_registry, dict_keys_regex, dict_keys_fields):
+        return {
+            "registry_as_given": attr_of(self, "str_types_registry") is (registry if is_none(str_types_registry) else str_types_registry),
+            "exactly_the_given_field_names": forall(attr_set(self, "dict_keys_fields"), lambda x: not is_none(dict_keys_fields) and x in as_list(dict_keys_fields))
+                                             and implies(not is_none(dict_keys_fields), forall(as_list(dict_keys_fields), lambda x: x in attr_set(self, "dict_keys_fields"))),
+            "one_pattern_per_regex": seq_len(attr_of(self, "dict_keys_regex")) == (0 if is_none(dict_keys_regex) else seq_len(as_list(dict_keys_regex))),
+        }
+
 
 IRMOD = ["_type", "_types", "_hash", "_sorted"]
 
